@@ -9,6 +9,7 @@ package pool
 import (
 	"context"
 	"fmt"
+	"reflect"
 	"sort"
 	"strconv"
 	"strings"
@@ -104,7 +105,7 @@ func (c *c19Ctx) fire() {
 type c19Case struct {
 	maxKeys, maxConns int
 	maxLife, stale    int64
-	progs             [][]string // ops: g<k> r u d c s
+	progs             [][]string // ops: g<k> r u d c s; a LAST program of k's only is the pool's own ticker goroutine: one k = its ticker fires once
 	sched             []string   // "<task>[:pick]" | "t<d>" | "b<c>" | "x<w>" (the context of worker w is cancelled / times out)
 	script            []string   // adaptive directives (generation only): the above, or "U<task>:<label prefix>"
 	style             string
@@ -125,6 +126,18 @@ type c19Run struct {
 	ctxs      []*c19Ctx
 	ctxErrs   int // Gets that came back with the error of their context
 	inGet     []bool
+	inCall    []string // the pool call worker w is in ("Get", "Return", "Close", "CleanUp"; "": none)
+
+	// the pool's own ticker goroutine (cleanUpTick, started by pool.New): the scheduler's daemon task.  In a case
+	// whose last program consists of k's it is task tkIdx of the schedule; a step of it while it is parked in its
+	// select makes its ticker fire (one k each); with no k left it is finished as far as the case is concerned.
+	daemon     *vcoop.Task
+	tkIdx      int
+	tkLeft     int
+	tkFinished bool
+	tkFired    int
+	tkMoved    bool // the last step of the ticker task consumed a k
+	tkInClose  bool // the ticker fired while a worker was inside Close()
 
 	recvd       []int
 	closedOrder []int
@@ -170,6 +183,9 @@ func (r *c19Run) scanChans() {
 }
 
 func (r *c19Run) label(t *vcoop.Task) string {
+	if t == r.daemon && !t.Done && t.Label == "t.wait" {
+		return "idle" // parked in the select of cleanUpTick
+	}
 	if t.Done {
 		if t.Panic != nil {
 			return "PANIC"
@@ -197,7 +213,9 @@ func (r *c19Run) worker(w int) func() {
 			case 'g':
 				k, _ := strconv.Atoi(op[1:])
 				r.inGet[w] = true
+				r.inCall[w] = "Get"
 				c, err := r.p.Get(ctx, c19Key(k))
+				r.inCall[w] = ""
 				r.inGet[w] = false
 				if err != nil && ctx.Err() != nil {
 					// the cancellation outcome of Get: the caller gets nothing (what became of a connection Get had
@@ -222,7 +240,9 @@ func (r *c19Run) worker(w int) func() {
 				cn.owner = -1
 				r.returning[w] = cn
 				cn.retKey, cn.retAt = k, r.s.Clock
-				r.p.Return(c19Key(k), cn)
+				r.inCall[w] = "Return"
+				c19Return(r.p, c19Key(k), cn)
+				r.inCall[w] = ""
 				r.returning[w] = nil
 			case 'u':
 				if len(r.held[w]) == 0 {
@@ -245,11 +265,15 @@ func (r *c19Run) worker(w int) func() {
 				r.held[w], r.heldKey[w] = r.held[w][1:], r.heldKey[w][1:]
 				cn.owner = -1
 				cn.Close()
-			case 'c':
+			case 'c', 'k':
+				r.inCall[w] = "CleanUp"
 				r.p.CleanUp(ctx)
+				r.inCall[w] = ""
 			case 's':
 				r.shutCalls++
+				r.inCall[w] = "Close"
 				r.p.Close()
+				r.inCall[w] = ""
 				r.shutDone = true
 			}
 		}
@@ -302,6 +326,12 @@ func (r *c19Run) handout(w int, cn *c19Conn, k int) {
 	cn.owner = w
 }
 
+// c19Return calls p.Return(key, c) whatever its result type is (a changed tree may report whether the pool kept the
+// connection): the harness must build either way.
+func c19Return(p *P, key string, c Conn) {
+	reflect.ValueOf(p).MethodByName("Return").Call([]reflect.Value{reflect.ValueOf(key), reflect.ValueOf(&c).Elem()})
+}
+
 const c19Patience = 30 * time.Second
 
 // c19Stuck counts the steps that did not come back: once the code under test has blocked twice
@@ -323,6 +353,28 @@ func (r *c19Run) stepTask(i int) (entry, lab string, stuck bool) {
 		return entry, "-", false
 	}
 	t := r.s.Tasks[i]
+	if i == r.tkIdx && t == r.daemon {
+		if r.tkFinished {
+			return entry, "done", false
+		}
+		if t.Done || (t.Label == "t.wait" && t.Waiting) {
+			// stopped, or blocked in its select: its ticker fires now, if the program says so
+			if r.tkLeft == 0 {
+				r.tkFinished = true
+				return entry, "done", false
+			}
+			r.tkLeft--
+			r.tkMoved = true
+			if t.Done {
+				return entry, "idle", false // the ticker goroutine has been stopped: nobody takes the tick
+			}
+			r.tkFired++
+			r.s.Fire()
+			for _, c := range r.inCall {
+				r.tkInClose = r.tkInClose || c == "Close"
+			}
+		}
+	}
 	before := r.label(t)
 	wasNil := r.p.keys == nil
 	var ret *c19Conn
@@ -380,6 +432,19 @@ func c19Run1(cs *c19Case, out *vh.Out) {
 		StaleKeyLifetimeSec: cs.stale,
 	})
 	nw := len(cs.progs)
+	// the pool's ticker goroutine: run it up to its select and let it find nothing ready (it is then "blocked in the select")
+	r.daemon, r.tkIdx = r.s.Daemon, -1
+	for n := 0; r.daemon != nil && n < 4 && !(r.daemon.Label == "t.wait" && r.daemon.Waiting); n++ {
+		if _, err := r.s.StepTask(r.daemon, c19CurPatience()); err != nil {
+			r.violate("C19/blocked", "the pool's ticker goroutine did not reach its select")
+			break
+		}
+	}
+	nWorkers := nw
+	if nw > 0 && len(cs.progs[nw-1]) > 0 && strings.Trim(strings.Join(cs.progs[nw-1], ""), "k") == "" && r.daemon != nil && !r.daemon.Done {
+		nWorkers, r.tkIdx, r.tkLeft = nw-1, nw-1, len(cs.progs[nw-1])
+	}
+	r.inCall = make([]string, nw)
 	r.held = make([][]*c19Conn, nw)
 	r.heldKey = make([][]int, nw)
 	r.returning = make([]*c19Conn, nw)
@@ -388,9 +453,18 @@ func c19Run1(cs *c19Case, out *vh.Out) {
 		r.ctxs = append(r.ctxs, &c19Ctx{done: make(chan struct{}), deadline: w%2 == 1})
 	}
 	cancelAt := map[string]bool{}
-	for w := 0; w < nw; w++ {
+	for w := 0; w < nWorkers; w++ {
 		t := r.s.Spawn("idle", r.worker(w))
 		t.SkipOne = "idle"
+	}
+	if r.tkIdx >= 0 {
+		r.s.Adopt(r.daemon)
+	}
+	finished := func(i int) bool {
+		if i == r.tkIdx {
+			return r.tkFinished
+		}
+		return r.s.Tasks[i].Done
 	}
 
 	var entries, labels []string
@@ -448,13 +522,13 @@ func c19Run1(cs *c19Case, out *vh.Out) {
 		parts := strings.SplitN(d[1:], ":", 2)
 		i, _ := strconv.Atoi(parts[0])
 		for n := 0; n < 80 && !stuck; n++ {
-			if i >= len(r.s.Tasks) || r.s.Tasks[i].Done {
+			if i >= len(r.s.Tasks) || finished(i) {
 				break
 			}
 			before := r.label(r.s.Tasks[i])
 			exec(strconv.Itoa(i))
 			after := r.label(r.s.Tasks[i])
-			if strings.HasPrefix(after, parts[1]) || r.s.Tasks[i].Done {
+			if strings.HasPrefix(after, parts[1]) || finished(i) {
 				break
 			}
 			if after == before && r.s.Tasks[i].Waiting {
@@ -467,27 +541,42 @@ func c19Run1(cs *c19Case, out *vh.Out) {
 		progress, alive := false, false
 		for i := 0; i < len(r.s.Tasks) && !stuck; i++ {
 			t := r.s.Tasks[i]
-			if t.Done {
+			if finished(i) {
 				continue
 			}
 			alive = true
-			before := r.label(t)
+			before, wasWaiting := r.label(t), t.Waiting
+			r.tkMoved = false
 			exec(strconv.Itoa(i))
-			if l := r.label(t); l != before || !t.Waiting {
-				progress = true // only a failed lock attempt (or a waiting select with no case ready) leaves a goroutine where it was
+			if l := r.label(t); l != before || !t.Waiting || (i == r.tkIdx && (r.tkMoved || r.tkFinished || !wasWaiting)) {
+				progress = true // only a failed lock attempt (or a waiting select / send with nobody ready) leaves a goroutine where it was
 			}
 		}
 		if !alive {
 			break
 		}
 		if !progress {
-			var where []string
+			// liveness: every pool call comes back once nothing it waits for is withheld by the schedule — here every
+			// goroutine has been offered a step and none can move
+			var where, calls []string
+			inClose := false
 			for i, t := range r.s.Tasks {
-				if !t.Done {
-					where = append(where, fmt.Sprintf("%d@%s", i, r.label(t)))
+				if !finished(i) {
+					w := fmt.Sprintf("%d@%s", i, r.label(t))
+					if i < len(r.inCall) && r.inCall[i] != "" {
+						w += "(in " + r.inCall[i] + ")"
+						calls = append(calls, r.inCall[i])
+						inClose = inClose || r.inCall[i] == "Close"
+					}
+					where = append(where, w)
 				}
 			}
-			r.violate("C19/deadlock", "no goroutine can move: "+strings.Join(where, " "))
+			if inClose {
+				r.violate("C19/shutdown-blocked", fmt.Sprintf("pool.Close() never returns (ticker fired %d time(s)); no goroutine can move: %s", r.tkFired, strings.Join(where, " ")))
+			} else {
+				r.violate("C19/deadlock", "no goroutine can move: "+strings.Join(where, " "))
+			}
+			_ = calls
 			break
 		}
 	}
@@ -571,8 +660,8 @@ func c19Run1(cs *c19Case, out *vh.Out) {
 	// ---- end-of-run part of the property: where is every connection? ----
 	if !stuck {
 		quiet := true
-		for _, t := range r.s.Tasks {
-			if !t.Done {
+		for i := range r.s.Tasks {
+			if !finished(i) {
 				quiet = false
 			}
 		}
@@ -653,6 +742,16 @@ func c19Run1(cs *c19Case, out *vh.Out) {
 	if r.shutCalls > 0 {
 		out.Stat("case with shutdown")
 	}
+	if r.tkIdx >= 0 {
+		out.Stat("case with the ticker goroutine scheduled")
+		if r.tkFired > 0 {
+			out.Stat("case where the clean-up ticker fires")
+		}
+		tickDuringClose := r.tkInClose
+		if tickDuringClose {
+			out.Stat("case where the ticker goroutine is inside CleanUp while Close() is in progress")
+		}
+	}
 	if len(r.chans) > 1 {
 		out.Stat("case with >1 bucket created")
 	}
@@ -669,12 +768,16 @@ func c19Run1(cs *c19Case, out *vh.Out) {
 	// stop the ticker goroutine of pools that were not shut down by the case itself
 	vcoop.Activate(nil)
 	healthy := !stuck
-	for _, t := range r.s.Tasks {
-		if !t.Done || t.Panic != nil {
+	for i, t := range r.s.Tasks {
+		if !finished(i) || t.Panic != nil {
 			healthy = false // the lock may be held for ever: do not touch the pool again
 		}
 	}
+	if r.daemon != nil && r.daemon.Label != "t.wait" && !r.daemon.Done {
+		healthy = false
+	}
 	if r.shutCalls == 0 && healthy {
+		r.s.Detach(r.daemon) // the ticker goroutine runs on by itself and takes the stop signal
 		func() {
 			defer func() { recover() }()
 			r.p.Close()
@@ -1003,10 +1106,97 @@ func c19GenCancel(r *vh.Rng) *c19Case {
 	return cs
 }
 
+// c19GenTickShutdown: the pool's own ticker goroutine is a task of the schedule (last program, k = its ticker fires).
+// One or two buckets hold idle connections; a worker calls pool.Close() and is stepped a chosen number of times —
+// before the stop signal, at the lock, between two buckets, while a connection's Close() is in progress — then the
+// clean-up ticker fires and the ticker goroutine runs into CleanUp (as far as it gets), others Get / Return
+// meanwhile; then everybody runs to the end.  Liveness: Close, Get, Return and the sweep all come back.
+func c19GenTickShutdown(r *vh.Rng) *c19Case {
+	cs := &c19Case{style: "scenario tick-shutdown"}
+	cs.maxKeys = 1 + r.Intn(3)
+	cs.maxConns = 1 + r.Intn(3)
+	cs.maxLife = int64(1 + r.Intn(4))
+	cs.stale = int64(r.Intn(6))
+	nk := 1 + r.Intn(2)
+	var p0 []string
+	n := 1 + r.Intn(cs.maxConns+1)
+	for k := 0; k < nk; k++ {
+		for i := 0; i < n; i++ {
+			p0 = append(p0, "g"+strconv.Itoa(k))
+		}
+	}
+	for i := 0; i < n*nk; i++ {
+		p0 = append(p0, "r")
+	}
+	closer := []string{"s"}
+	if r.Chance(30) {
+		closer = []string{"g0", "r", "s"}
+	}
+	if r.Chance(25) {
+		closer = append(closer, "g0", "r")
+	}
+	cs.progs = [][]string{p0, closer}
+	nOther := r.Intn(3)
+	for i := 0; i < nOther; i++ {
+		cs.progs = append(cs.progs, c19Session(r, nk))
+	}
+	tk := len(cs.progs)
+	nt := 1 + r.Intn(2)
+	var ks []string
+	for i := 0; i < nt; i++ {
+		ks = append(ks, "k")
+	}
+	cs.progs = append(cs.progs, ks)
+	for i := 0; i < 2*len(p0); i++ {
+		cs.script = append(cs.script, "U0:idle")
+	}
+	if r.Chance(50) {
+		cs.script = append(cs.script, "t"+strconv.Itoa(1+r.Intn(5)))
+	}
+	if r.Chance(20) {
+		// an early sweep: the ticker goroutine is already inside CleanUp when Close starts
+		for i, m := 0, 1+r.Intn(3); i < m; i++ {
+			cs.script = append(cs.script, strconv.Itoa(tk))
+		}
+	}
+	other := func() {
+		if nOther > 0 && r.Chance(40) {
+			for i, m := 0, 1+r.Intn(5); i < m; i++ {
+				cs.script = append(cs.script, strconv.Itoa(2+r.Intn(nOther)))
+			}
+		}
+	}
+	// Close() goes some way …
+	for i, m := 0, r.Intn(3+4*n*nk); i < m; i++ {
+		cs.script = append(cs.script, "1")
+		if r.Chance(8) {
+			other()
+		}
+	}
+	other()
+	// … the ticker fires and the ticker goroutine goes as far as it gets
+	for i, m := 0, 1+r.Intn(4); i < m; i++ {
+		cs.script = append(cs.script, strconv.Itoa(tk))
+	}
+	other()
+	if r.Chance(50) {
+		for i, m := 0, 1+r.Intn(6); i < m; i++ {
+			cs.script = append(cs.script, "1")
+		}
+		cs.script = append(cs.script, strconv.Itoa(tk))
+		other()
+	}
+	cs.script = append(cs.script, "U1:idle")
+	return cs
+}
+
 func c19Gen(r *vh.Rng) *c19Case {
 	if r.Chance(30) {
 		if r.Chance(25) {
 			return c19GenFullMap(r)
+		}
+		if r.Chance(25) {
+			return c19GenTickShutdown(r)
 		}
 		if r.Chance(25) {
 			return c19GenCancel(r)
@@ -1048,6 +1238,10 @@ func c19Gen(r *vh.Rng) *c19Case {
 		}
 		cs.progs = append(cs.progs, p)
 	}
+	// in one case out of three the pool's own ticker goroutine is a task of the schedule (its ticker fires up to 3 times)
+	if r.Chance(33) {
+		cs.progs = append(cs.progs, []string{"k", "k", "k"}[:1+r.Intn(3)])
+	}
 	// schedule
 	total := 0
 	for _, p := range cs.progs {
@@ -1067,7 +1261,7 @@ func c19Gen(r *vh.Rng) *c19Case {
 		}
 		return "", false
 	}
-	ntasks := nw + 2 // spawned closers get the next ids
+	ntasks := len(cs.progs) + 2 // spawned closers get the next ids
 	switch r.Intn(4) {
 	case 0:
 		cs.style = "uniform"
